@@ -466,9 +466,9 @@ func (g *gen) catchNode(names []string) *Node {
 	n := &Node{Name: "_catch", Template: "catch page"}
 	variant := 0
 	if g.p.CatchVariants {
-		variant = r.Intn(4)
+		variant = r.Intn(6)
 		if g.p.EndNodes && r.Chance(1, 3) {
-			variant = 4 + r.Intn(2) // the error handler is itself an end node
+			variant = 6 + r.Intn(2) // the error handler is itself an end node
 		}
 	}
 	switch variant {
@@ -481,8 +481,12 @@ func (g *gen) catchNode(names []string) *Node {
 	case 3:
 		n.Code = []codec.Ins{{Op: codec.MOUT, S1: "lback", S2: "0"}, {Op: codec.HALT}, {Op: codec.MOVE, S1: "_"}}
 	case 4:
-		n.Code = []codec.Ins{{Op: codec.MOUT, S1: "lback", S2: "0"}} // ends without HALT
+		n.Code = []codec.Ins{{Op: codec.HALT}, {Op: codec.MOVE, S1: "_"}} // six bytes of code
 	case 5:
+		n.Code = []codec.Ins{{Op: codec.HALT}, {Op: codec.MOVE, S1: "^"}}
+	case 6:
+		n.Code = []codec.Ins{{Op: codec.MOUT, S1: "lback", S2: "0"}} // ends without HALT
+	case 7:
 		n.Code = []codec.Ins{} // a page and nothing else
 	}
 	return n
